@@ -2293,5 +2293,292 @@ theorem inherited_disabled_policy (w : World) (hs : settingsDerived w = true) (i
   have := (derived_disabled_iff (confOf w) i _ (confOf_get hq)).mpr hd
   rw [this]; rfl
 
+/-! ### the marking loop of TryPreemption: rollback when a final victim was released in the meantime -/
+
+@[simp] theorem mark_key (a : PAlloc) (b : Bool) : (a.mark b).key = a.key := rfl
+@[simp] theorem mark_mark (a : PAlloc) (b c : Bool) : (a.mark b).mark c = a.mark c := rfl
+@[simp] theorem mark_released (a : PAlloc) (b : Bool) : (a.mark b).released = a.released := rfl
+@[simp] theorem mark_preempted (a : PAlloc) (b : Bool) : (a.mark b).preempted = b := rfl
+
+theorem contains_snoc (ks : List String) (k x : String) : (ks ++ [k]).contains x = (ks.contains x || x == k) := by
+  induction ks with
+  | nil => rw [List.nil_append, List.contains_cons, List.contains_nil, Bool.or_false, Bool.false_or]
+  | cons d t ih => rw [List.cons_append, List.contains_cons, List.contains_cons, ih, Bool.or_assoc]
+
+theorem setPreempted_markMap (k : String) (b : Bool) (ks : List String) (allocs : List PAlloc) :
+    setPreempted k b (markMap ks b allocs) = markMap (ks ++ [k]) b allocs := by
+  unfold setPreempted markMap
+  rw [List.map_map]
+  apply List.map_congr_left
+  intro a _
+  simp only [Function.comp, contains_snoc]
+  cases h1 : ks.contains a.key <;> cases h2 : (a.key == k) <;>
+    simp only [h2, mark_key, mark_mark, if_true, if_false, Bool.false_eq_true, Bool.or_true, Bool.or_false, Bool.or_self]
+
+theorem markMap_nil (b : Bool) (allocs : List PAlloc) : markMap [] b allocs = allocs := by
+  unfold markMap
+  simp
+
+theorem unmarkAll_eq (ds : List String) : ∀ allocs : List PAlloc, unmarkAll ds allocs = markMap ds false allocs := by
+  induction ds with
+  | nil => intro allocs; rw [markMap_nil]; rfl
+  | cons d t ih =>
+    intro allocs
+    unfold unmarkAll
+    rw [List.foldl_cons]
+    have := ih (setPreempted d false allocs)
+    unfold unmarkAll at this
+    rw [this]
+    unfold setPreempted markMap
+    rw [List.map_map]
+    apply List.map_congr_left
+    intro a _
+    simp only [Function.comp, List.contains_cons]
+    cases h1 : (a.key == d) <;> cases h2 : t.contains a.key <;>
+      simp only [h2, mark_key, mark_mark, if_true, if_false, Bool.false_eq_true, Bool.or_true, Bool.or_false, Bool.or_self]
+
+theorem markMap_false_true (ks : List String) (allocs : List PAlloc) :
+    markMap ks false (markMap ks true allocs) = markMap ks false allocs := by
+  unfold markMap
+  rw [List.map_map]
+  apply List.map_congr_left
+  intro a _
+  simp only [Function.comp]
+  cases h : ks.contains a.key <;> simp only [h, mark_key, mark_mark, if_true, if_false, Bool.false_eq_true]
+
+theorem isReleased_markMap (ks : List String) (b : Bool) (allocs : List PAlloc) (k : String) :
+    isReleased (markMap ks b allocs) k = isReleased allocs k := by
+  unfold isReleased markMap
+  rw [List.find?_map]
+  have : ((fun a : PAlloc => a.key == k) ∘ fun a => if ks.contains a.key then a.mark b else a) =
+      (fun a : PAlloc => a.key == k) := by
+    funext a
+    simp only [Function.comp]
+    cases h : ks.contains a.key <;> simp only [mark_key, if_true, if_false, Bool.false_eq_true]
+  rw [this]
+  cases List.find? (fun a : PAlloc => a.key == k) allocs with
+  | none => rfl
+  | some a =>
+    simp only [Option.map_some]
+    cases h : ks.contains a.key <;> simp only [mark_released, if_true, if_false, Bool.false_eq_true]
+
+/-- the marking loop, from a state in which exactly `done` was marked on top of `allocs0`:
+    it succeeds iff no victim still to mark is released, then everything of `done ++ todo` is marked on top of
+    `allocs0`; otherwise a prefix of `done ++ todo` has its flag cleared and nothing else differs from `allocs0` -/
+theorem markLoop_spec (allocs0 : List PAlloc) : ∀ (todo done : List String),
+    ((markLoop (markMap done true allocs0) done todo).2 = true →
+      (∀ k ∈ todo, isReleased allocs0 k = false) ∧
+      (markLoop (markMap done true allocs0) done todo).1 = markMap (done ++ todo) true allocs0) ∧
+    ((markLoop (markMap done true allocs0) done todo).2 = false →
+      (∃ k ∈ todo, isReleased allocs0 k = true) ∧
+      ∃ un, un <+: done ++ todo ∧ (markLoop (markMap done true allocs0) done todo).1 = markMap un false allocs0) := by
+  intro todo
+  induction todo with
+  | nil =>
+    intro done
+    unfold markLoop
+    refine ⟨fun _ => ⟨fun k hk => (by cases hk), (by rw [List.append_nil])⟩, fun h => (by simp at h)⟩
+  | cons k t ih =>
+    intro done
+    unfold markLoop
+    rw [isReleased_markMap]
+    by_cases hr : isReleased allocs0 k = true
+    · rw [if_pos hr]
+      refine ⟨fun h => by simp at h, fun _ => ⟨⟨k, List.mem_cons_self, hr⟩, done, List.prefix_append _ _, ?_⟩⟩
+      show unmarkAll done (markMap done true allocs0) = markMap done false allocs0
+      rw [unmarkAll_eq, markMap_false_true]
+    · have hr' : isReleased allocs0 k = false := by cases h : isReleased allocs0 k <;> simp_all
+      rw [if_neg hr, setPreempted_markMap]
+      have := ih (done ++ [k])
+      rw [List.append_assoc, List.singleton_append] at this
+      refine ⟨fun h => ?_, fun h => ?_⟩
+      · obtain ⟨h1, h2⟩ := this.1 h
+        refine ⟨?_, h2⟩
+        intro k' hk'
+        rcases List.mem_cons.mp hk' with rfl | hk'
+        · exact hr'
+        · exact h1 k' hk'
+      · obtain ⟨⟨k', hk', hrel⟩, un, hun, hres⟩ := this.2 h
+        exact ⟨⟨k', List.mem_cons_of_mem _ hk', hrel⟩, un, hun, hres⟩
+
+theorem releaseLate_preempted {late : List String} {allocs : List PAlloc} {a : PAlloc}
+    (h : a ∈ releaseLate late allocs) (hp : a.preempted = true) : a ∈ allocs := by
+  unfold releaseLate at h
+  obtain ⟨b, hb, rfl⟩ := List.mem_map.mp h
+  by_cases hc : (late.contains b.key && !b.preempted) = true
+  · rw [if_pos hc] at hp
+    simp only [Bool.and_eq_true, Bool.not_eq_true'] at hc
+    rw [hc.2] at hp; cases hp
+  · rw [if_neg hc]; exact hb
+
+theorem markMap_false_preempted {ks : List String} {allocs : List PAlloc} {a : PAlloc}
+    (h : a ∈ markMap ks false allocs) (hp : a.preempted = true) : a ∈ allocs := by
+  unfold markMap at h
+  obtain ⟨b, hb, rfl⟩ := List.mem_map.mp h
+  by_cases hc : ks.contains b.key = true
+  · rw [if_pos hc, mark_preempted] at hp; cases hp
+  · rw [if_neg hc]; exact hb
+
+/-- the end of TryPreemption for an outcome `r` of the steps before the marking loop -/
+theorem finishTry_some (w : World) (late : List String) (r : TryResult) :
+    ((∃ v ∈ r.victims, isReleased (releaseLate late w.allocs) v.key = true) →
+      (finishTry w late (some r)).result = none ∧ (finishTry w late (some r)).released = true ∧
+      (finishTry w late (some r)).triggered = w.ask.triggered ∧
+      (∃ un, un <+: r.victims.map (·.key) ∧
+        (finishTry w late (some r)).allocs = markMap un false (releaseLate late w.allocs)) ∧
+      ∀ a ∈ (finishTry w late (some r)).allocs, a.preempted = true → a ∈ w.allocs) ∧
+    ((∀ v ∈ r.victims, isReleased (releaseLate late w.allocs) v.key = false) →
+      (finishTry w late (some r)).result = some r ∧ (finishTry w late (some r)).released = false ∧
+      (finishTry w late (some r)).triggered = true ∧
+      (finishTry w late (some r)).allocs = markMap (r.victims.map (·.key)) true (releaseLate late w.allocs)) := by
+  have spec := markLoop_spec (releaseLate late w.allocs) (r.victims.map (·.key)) []
+  rw [markMap_nil, List.nil_append] at spec
+  unfold finishTry
+  simp only
+  cases hm : (markLoop (releaseLate late w.allocs) [] (r.victims.map (·.key))).2 with
+  | true =>
+    obtain ⟨h1, h2⟩ := spec.1 hm
+    rw [if_pos rfl]
+    refine ⟨?_, fun _ => ⟨rfl, rfl, rfl, h2⟩⟩
+    rintro ⟨v, hv, hrel⟩
+    rw [h1 v.key (List.mem_map.mpr ⟨v, hv, rfl⟩)] at hrel
+    cases hrel
+  | false =>
+    obtain ⟨⟨k, hk, hrel⟩, un, hun, hres⟩ := spec.2 hm
+    rw [if_neg Bool.false_ne_true]
+    refine ⟨fun _ => ⟨rfl, rfl, rfl, ⟨un, hun, hres⟩, ?_⟩, ?_⟩
+    · intro a ha hp
+      have ha : a ∈ (markLoop (releaseLate late w.allocs) [] (r.victims.map (·.key))).1 := ha
+      rw [hres] at ha
+      exact releaseLate_preempted (markMap_false_preempted ha hp) hp
+    · intro hall
+      obtain ⟨v, hv, rfl⟩ := List.mem_map.mp hk
+      rw [hall v hv] at hrel
+      cases hrel
+
+theorem finishTry_none (w : World) (late : List String) :
+    finishTry w late none = { allocs := releaseLate late w.allocs, result := none, released := false, triggered := w.ask.triggered } := rfl
+
+
+theorem mark_self (a : PAlloc) : a.mark a.preempted = a := by cases a; rfl
+
+theorem markMap_false_id {ks : List String} {allocs : List PAlloc}
+    (h : ∀ a ∈ allocs, ks.contains a.key = true → a.preempted = false) : markMap ks false allocs = allocs := by
+  unfold markMap
+  conv => rhs; rw [← List.map_id allocs]
+  apply List.map_congr_left
+  intro a ha
+  cases hc : ks.contains a.key with
+  | false => simp only [Bool.false_eq_true, if_false, id]
+  | true =>
+    simp only [if_true, id]
+    have := mark_self a
+    rw [h a ha hc] at this
+    exact this
+
+theorem releaseLate_mem {late : List String} {allocs : List PAlloc} {a : PAlloc} (h : a ∈ releaseLate late allocs) :
+    ∃ b ∈ allocs, b.key = a.key ∧ b.preempted = a.preempted := by
+  unfold releaseLate at h
+  obtain ⟨b, hb, rfl⟩ := List.mem_map.mp h
+  refine ⟨b, hb, ?_, ?_⟩ <;> cases (late.contains b.key && !b.preempted) <;> rfl
+
+/-- the preempting resource of a queue does not depend on the released flags -/
+theorem preemptingOf_releaseLate (w : World) (late : List String) (i : Nat) :
+    preemptingOf { w with allocs := releaseLate late w.allocs } i = preemptingOf w i := by
+  unfold preemptingOf
+  show sumRes (((releaseLate late w.allocs).filter (fun a => a.preempted && inSubtree w i a.q)).map (·.res)) = _
+  unfold releaseLate
+  rw [List.filter_map, List.map_map]
+  have h1 : ((fun a : PAlloc => a.preempted && inSubtree w i a.q) ∘
+      fun a => if (late.contains a.key && !a.preempted) = true then { a with released := true } else a) =
+      (fun a : PAlloc => a.preempted && inSubtree w i a.q) := by
+    funext a
+    simp only [Function.comp]
+    cases (late.contains a.key && !a.preempted) <;> rfl
+  have h2 : ((fun a : PAlloc => a.res) ∘
+      fun a => if (late.contains a.key && !a.preempted) = true then { a with released := true } else a) =
+      (fun a : PAlloc => a.res) := by
+    funext a
+    simp only [Function.comp]
+    cases (late.contains a.key && !a.preempted) <;> rfl
+  rw [h1, h2]
+
+/-- the modelled TryPreemption (first-node rule) with allocations released between victim collection and marking -/
+theorem tryPreemptionLate_spec (w : World) (nt : Bool) (late : List String) :
+    (∀ r, tryPreemptionNoPlugin w nt = some r →
+      (∃ v ∈ r.victims, isReleased (releaseLate late w.allocs) v.key = true) →
+      (tryPreemptionLate w nt late).result = none ∧ (tryPreemptionLate w nt late).released = true ∧
+      (tryPreemptionLate w nt late).triggered = w.ask.triggered) ∧
+    ((tryPreemptionLate w nt late).result = none →
+      (tryPreemptionLate w nt late).triggered = w.ask.triggered ∧
+      ∀ a ∈ (tryPreemptionLate w nt late).allocs, a.preempted = true → a ∈ w.allocs) ∧
+    (∀ r, (tryPreemptionLate w nt late).result = some r →
+      tryPreemptionNoPlugin w nt = some r ∧
+      (∀ v ∈ r.victims, isReleased (releaseLate late w.allocs) v.key = false) ∧
+      (tryPreemptionLate w nt late).released = false ∧ (tryPreemptionLate w nt late).triggered = true ∧
+      (tryPreemptionLate w nt late).allocs = markMap (r.victims.map (·.key)) true (releaseLate late w.allocs)) := by
+  unfold tryPreemptionLate
+  cases ht : tryPreemptionNoPlugin w nt with
+  | none =>
+    rw [finishTry_none]
+    refine ⟨fun r h => (by cases h), fun _ => ⟨rfl, fun a ha hp => releaseLate_preempted ha hp⟩, fun r h => (by cases h)⟩
+  | some r0 =>
+    have spec := finishTry_some w late r0
+    by_cases hex : ∃ v ∈ r0.victims, isReleased (releaseLate late w.allocs) v.key = true
+    · obtain ⟨h1, h2, h3, _, h5⟩ := spec.1 hex
+      refine ⟨fun r hr _ => ?_, fun _ => ⟨h3, h5⟩, fun r hr => ?_⟩
+      · cases hr; exact ⟨h1, h2, h3⟩
+      · rw [h1] at hr; cases hr
+    · have hall : ∀ v ∈ r0.victims, isReleased (releaseLate late w.allocs) v.key = false := by
+        intro v hv
+        cases hc : isReleased (releaseLate late w.allocs) v.key with
+        | false => rfl
+        | true => exact absurd ⟨v, hv, hc⟩ hex
+      obtain ⟨h1, h2, h3, h4⟩ := spec.2 hall
+      refine ⟨fun r hr hx => ?_, fun hn => ?_, fun r hr => ?_⟩
+      · cases hr; exact absurd hx hex
+      · rw [h1] at hn; cases hn
+      · rw [h1] at hr; cases hr
+        exact ⟨rfl, hall, h2, h3, h4⟩
+
+/-- with unique keys the final victims are unmarked allocations of the world, so an abandoned attempt restores every
+    flag: the allocations are exactly what the late releases left, and no queue's preempting resource changed -/
+theorem tryPreemptionLate_abandoned_restores (w : World) (hw : WF w) (hk : KeysUnique w) (nt : Bool) (late : List String)
+    (h : (tryPreemptionLate w nt late).result = none) :
+    (tryPreemptionLate w nt late).allocs = releaseLate late w.allocs ∧
+    ∀ i, preemptingOf { w with allocs := (tryPreemptionLate w nt late).allocs } i = preemptingOf w i := by
+  have key : (tryPreemptionLate w nt late).allocs = releaseLate late w.allocs := by
+    unfold tryPreemptionLate at h ⊢
+    cases ht : tryPreemptionNoPlugin w nt with
+    | none => rfl
+    | some r0 =>
+      rw [ht] at h
+      have spec := finishTry_some w late r0
+      by_cases hex : ∃ v ∈ r0.victims, isReleased (releaseLate late w.allocs) v.key = true
+      · obtain ⟨_, _, _, ⟨un, hun, hres⟩, _⟩ := spec.1 hex
+        rw [hres]
+        apply markMap_false_id
+        intro a ha hc
+        obtain ⟨b, hb, hbk, hbp⟩ := releaseLate_mem ha
+        rw [← hbp]
+        have hmem : a.key ∈ r0.victims.map (·.key) := by
+          have : a.key ∈ un := by simpa using hc
+          exact hun.subset this
+        obtain ⟨v, hv, hvk⟩ := List.mem_map.mp hmem
+        obtain ⟨hcoll, hsub, _⟩ := tryPreemption_commits_potential ht
+        have hpot := (hcoll v (hsub.subset hv)).1
+        obtain ⟨hvw, _, hvp, _⟩ := eligViolations_nil (potentialVictim_eligible w hw hk v hpot)
+        have : v = b := hk v hvw b hb (by rw [hbk]; exact hvk)
+        rw [← this]; exact hvp
+      · have hall : ∀ v ∈ r0.victims, isReleased (releaseLate late w.allocs) v.key = false := by
+          intro v hv
+          cases hc : isReleased (releaseLate late w.allocs) v.key with
+          | false => rfl
+          | true => exact absurd ⟨v, hv, hc⟩ hex
+        rw [(spec.2 hall).1] at h; cases h
+  refine ⟨key, fun i => ?_⟩
+  rw [key]
+  exact preemptingOf_releaseLate w late i
+
 end Pre
 end Yk
